@@ -3,6 +3,7 @@
    genhkl*, sysabs*, reduce_cell (not real-valued closed forms) are compared on the implementation and, for sysabs*, by the AST-level
    comparison in the correspondence; tools.ubi_to_u_and_eps is the listed exception (known finding F7). *)
 From Coq Require Import Reals List.
+From XV Require Import Ast_tools Ast_laue P14_ast.
 From XV Require Import RealLib Mat3 Atan2 Cell Gen_laue Gen_tools P14_cell P01_tools P02_laue P14_ubi P14_rot P09_laue P13_laue P13_ubi P14_rest.
 Open Scope R_scope.
 
@@ -81,3 +82,10 @@ Print Assumptions C14_find_omega.
 Theorem C14_find_omega_wedge : forall g tth w, tools_find_omega_wedge g tth w = laue_find_omega_wedge g tth w.
 Proof. exact tl_find_omega_wedge. Qed.
 Print Assumptions C14_find_omega_wedge.
+
+Theorem C14_sysabs_unique : forall hkl sc, ast_tools_sysabs_unique hkl sc = ast_laue_sysabs_unique hkl sc.
+Proof. exact tl_sysabs_unique. Qed.
+Print Assumptions C14_sysabs_unique.
+Theorem C14_sysabs : forall hkl sc cs ch, ast_tools_sysabs hkl sc cs ch = ast_laue_sysabs hkl sc cs ch.
+Proof. exact tl_sysabs. Qed.
+Print Assumptions C14_sysabs.
